@@ -8,3 +8,5 @@ import Refine.Model.Geom
 import Refine.Model.Recon
 import Refine.Lemmas.ScalarReal
 import Refine.Props.C15
+import Refine.Lemmas.GeomReal
+import Refine.Props.C11
